@@ -7,6 +7,10 @@ from contracts.units.engine_common import COMMON
 from contracts.units.global_cache import UTILS_FNS, SCORE_STUBS
 from contracts.units import async_cache as AC
 
+# the shared helpers of utils.rs work on data the caller has already locked (no acquisition inside): they appear with the
+# contracts verified in unit `utils`, so edits inside them are judged there (and by that unit's stand-in), not here
+UTILS_STUBS = [dict(it, stub=True, loops={}, hints=[]) for it in UTILS_FNS]
+
 G = 'cachelito-core/src/global_cache.rs'
 A = 'cachelito-core/src/async_global_cache.rs'
 
@@ -17,7 +21,7 @@ ONE = ('one_counter_per_lookup_under_interference', ['C15'],
 UNIT = dict(
     name='interference',
     prelude=['prelude.rs', 'prelude_float.rs'],
-    items=COMMON + UTILS_FNS + SCORE_STUBS + [AC.SPEC_MIN,
+    items=COMMON + UTILS_STUBS + SCORE_STUBS + [AC.SPEC_MIN,
         dict(kind='struct', file=G, name='GlobalCache', rules=R1_TYPES),
         dict(kind='fn', file=G, impl=r"^impl<R: Clone \+ 'static> GlobalCache<R>$", name='get', label='GlobalCache::get[interference]', engine='GlobalCache',
              interference=True, ret='res', ensures=[ONE]),
